@@ -634,15 +634,18 @@ class ExprMixin(object):
         yield from self.comprehension(n, st, as_list=False)
 
     def comprehension(self, n, st, as_list):
-        if len(n.generators) != 1 or n.generators[0].ifs or not isinstance(n.generators[0].target, ast.Name):
-            raise Unsupported('comprehension form at line %d' % n.lineno)
         g = n.generators[0]
-        var = g.target.id
+        tuple_target = isinstance(g.target, ast.Tuple) and all(isinstance(e, ast.Name) for e in g.target.elts)
+        if len(n.generators) != 1 or g.ifs or not (isinstance(g.target, ast.Name) or tuple_target):
+            raise Unsupported('comprehension form at line %d' % n.lineno)
+        var = tuple([e.id for e in g.target.elts]) if tuple_target else g.target.id
         for s, it in self.ev(g.iter, st):
             if is_exc(it):
                 yield s, it
                 continue
             it = self.deref_list(it, s)
+            if isinstance(var, tuple) and not isinstance(it, ListV):
+                raise Unsupported('comprehension with a tuple target over %r at line %d' % (it, n.lineno))
             if isinstance(it, (PyListV, TupV)):
                 yield from self.comp_unroll(n.elt, var, it.items, s, [], as_list)
             elif isinstance(it, SeqV) and it.kind in ('list', 'bytes', 'bytearray'):
@@ -730,7 +733,14 @@ class ExprMixin(object):
         j = fresh('cj')
         s = st.clone()
         s.loc = dict(s.loc)
-        s.loc[var] = lst.get(j)
+        if isinstance(var, tuple):
+            e = lst.get(j)
+            if not (isinstance(e, TupV) and len(e.items) == len(var)):
+                raise Unsupported('comprehension tuple target over elements %r at line %d' % (e, n.lineno))
+            for nm, x in zip(var, e.items):
+                s.loc[nm] = x
+        else:
+            s.loc[var] = lst.get(j)
         outs = list(self.ev(n.elt, s))
         if len(outs) == 1 and isinstance(outs[0][1], SeqV) and len(outs[0][0].pc) == len(s.pc):
             # a byte-string valued pure element expression: the element-wise image, as a functional list of sequences
